@@ -26,29 +26,64 @@ func (hTimeoutErr) Error() string   { return "i/o timeout" }
 func (hTimeoutErr) Timeout() bool   { return true }
 func (hTimeoutErr) Temporary() bool { return true }
 
+// hTrackBody remembers whether the response body was read to its end (what lets the transport
+// reuse the connection) before it was closed.
+type hTrackBody struct {
+	r       *strings.Reader
+	sawEOF  bool
+	closed  int
+	earlyCl bool
+}
+
+func (b *hTrackBody) Read(p []byte) (int, error) {
+	n, err := b.r.Read(p)
+	if err == io.EOF {
+		b.sawEOF = true
+	}
+	return n, err
+}
+func (b *hTrackBody) Close() error {
+	b.closed++
+	if !b.sawEOF {
+		b.earlyCl = true
+	}
+	return nil
+}
+
 type hClient struct {
-	mode   int64 // 0 response, 1 plain error, 2 timeout error, 3 body read error
-	status int
-	calls  int
-	got    *http.Request
-	scheme string
-	host   string
-	urlh   string
+	track   *hTrackBody
+	mode    int64 // 0 response, 1 plain error, 2 timeout error, 3 body read error
+	status  int
+	calls   int
+	got     *http.Request
+	scheme  string
+	host    string
+	urlh    string
+	gotBody io.ReadCloser
+	sent    []byte // body bytes the client read when the request was handed to it
+	sentOK  bool
 }
 
 func (c *hClient) Do(req *http.Request) (*http.Response, error) {
 	c.calls++
 	c.got = req
 	c.scheme, c.host, c.urlh = req.URL.Scheme, req.Host, req.URL.Host
+	c.gotBody = req.Body
+	if req.Body != nil {
+		var rerr error
+		c.sent, rerr = io.ReadAll(req.Body)
+		c.sentOK = rerr == nil
+	}
 	switch c.mode {
 	case 1:
 		return nil, errors.New("connection refused")
 	case 2:
 		return nil, hTimeoutErr{}
 	case 3:
-		return &http.Response{StatusCode: c.status, Body: hErrBody{}}, nil
+		return &http.Response{StatusCode: c.status, Body: hErrBody{}, Request: req}, nil
 	}
-	return &http.Response{StatusCode: c.status, Body: io.NopCloser(strings.NewReader("ok"))}, nil
+	c.track = &hTrackBody{r: strings.NewReader("ok")}
+	return &http.Response{StatusCode: c.status, Body: c.track, Request: req, ProtoMajor: 1, ProtoMinor: 1}, nil
 }
 func (c *hClient) CloseIdleConnections() {}
 
@@ -71,23 +106,41 @@ type hSampleAggr struct {
 func (a *hSampleAggr) Report(s *netsample.Sample)                           { a.n++; a.last = s }
 func (a *hSampleAggr) Run(ctx context.Context, _ core.AggregatorDeps) error { return nil }
 
+// DumpRequestOut (answlog) drives a private transport over an in-memory pipe: environment, stubbed
+// symbolically (the native replay runs the real one)
+func vStub_net_http_httputil_DumpRequestOut(req *http.Request, body bool) ([]byte, error) {
+	if body && req.Body != nil {
+		b, _ := io.ReadAll(req.Body)
+		req.Body = io.NopCloser(strings.NewReader(string(b)))
+	}
+	return []byte("POST / HTTP/1.1\r\n\r\n"), nil
+}
+
 func HarnessC10BaseGunShoot() {
 	cl := &hClient{mode: vConcretize(vNondetInt("mode", 0, 3)), status: int(vNondetInt("status", 100, 599))}
 	cfg := GunConfig{Target: "target.example:8080", TargetResolved: "10.0.0.1:8080", SSL: vNondetBool("ssl")}
 	cfg.AutoTag.Enabled = vNondetBool("autotag")
 	cfg.AutoTag.NoTagOnly = vNondetBool("notagonly")
 	cfg.AutoTag.URIElements = 1
-	// httptrace: {trace, dump} change what is measured, never what is reported
-	cfg.HTTPTrace.TraceEnabled = vNondetBool("trace")
-	cfg.HTTPTrace.DumpEnabled = vNondetBool("dump")
-	g := &BaseGun{Config: cfg, Client: cl}
+	// httptrace {trace, dump}, answlog (filter all/warning/error) and debug logging change what is
+	// measured and logged, never what is reported
+	logMode := vConcretize(vNondetInt("logMode", 0, 5))
+	if logMode >= 2 && logMode <= 4 {
+		// (the response dump renders the status text: a few representative codes instead of all)
+		vAssume(cl.status == 200 || cl.status == 302 || cl.status == 404 || cl.status == 503)
+	}
+	cfg.HTTPTrace.TraceEnabled = logMode == 1 || logMode == 3
+	cfg.HTTPTrace.DumpEnabled = logMode == 2 || logMode == 3
+	if logMode == 4 {
+		cfg.AnswLog.Enabled = true
+		cfg.AnswLog.Filter = []string{"all", "warning", "error"}[vConcretize(vNondetInt("filter", 0, 2))]
+	}
+	g := &BaseGun{Config: cfg, Client: cl, AnswLog: zap.NewNop()}
 	ag := &hSampleAggr{}
 	_ = g.Bind(ag, core.GunDeps{Ctx: context.Background(), Log: zap.NewNop()})
-	hasTag := vNondetBool("hastag")
-	tag := ""
-	if hasTag {
-		tag = "mytag"
-	}
+	g.DebugLog = logMode == 5
+	// the ammo's own tag: none, an ordinary one, or one that happens to contain the auto-tag text
+	tag := []string{"", "mytag", "x/a/b"}[vConcretize(vNondetInt("tagKind", 0, 2))]
 	hostSet := vNondetBool("hostset")
 	host := ""
 	if hostSet {
@@ -117,6 +170,10 @@ func HarnessC10BaseGunShoot() {
 	case 0:
 		vCheck("G2.proto.is.status", s.ProtoCode() == cl.status)
 		vCheck("G2.net.zero.on.response", s.Err() == nil)
+		// C09 keep-alive, pandora's part: the response body is read to its end and closed, whatever
+		// is logged or traced (an unread body makes the transport drop the connection)
+		vCheck("H5.response.body.drained", cl.track != nil && cl.track.sawEOF)
+		vCheck("H5.response.body.closed", cl.track != nil && cl.track.closed >= 1)
 	case 3:
 		vCheck("G2.proto.is.status.bodyerr", s.ProtoCode() == cl.status)
 		vCheck("G2.net.nonzero.on.bodyerr", s.Err() != nil)
@@ -153,12 +210,10 @@ func HarnessC10BaseGunShoot() {
 	}
 	vCheck("H3.method.kept", cl.got.Method == "POST")
 	vCheck("H3.path.query.kept", cl.got.URL.Path == "/a/b" && cl.got.URL.RawQuery == "q=1")
-	if cfg.HTTPTrace.DumpEnabled {
-		// (dumping reads the body and hands the client an equal copy)
-		got, _ := io.ReadAll(cl.got.Body)
-		vCheck("H3.body.bytes.kept", string(got) == "payload")
-	} else {
-		vCheck("H3.body.kept", cl.got.Body == body)
+	vCheck("H3.body.bytes.kept", cl.sentOK && string(cl.sent) == "payload")
+	if logMode == 0 || logMode == 1 {
+		// (dumping / answ logging hands the client an equal copy instead of the ammo's own reader)
+		vCheck("H3.body.kept", cl.gotBody == body)
 	}
 	vCheck("H3.header.kept", len(cl.got.Header) == 1 && cl.got.Header.Get("X-A") == "1")
 	vReach("end")
